@@ -285,7 +285,7 @@ class Grid:
         mapped_kwargs: Dict[str, Any] = dict()
 
         if isinstance(kwargs, dict):
-            mapped_kwargs = kwargs
+            mapped_kwargs = dict(kwargs)
         else:
             for axname in axes:
                 mapped_kwargs[axname] = kwargs
